@@ -39,8 +39,23 @@ def sources(model):
 
 
 def vform(m, t):
+    """(prefix, narrowest width) of the version pattern, found by probing the pattern with candidate values
+    (so that patterns like v\\d\\d\\d\\d? - three or four digits - are understood too)."""
     spec = m.specs[(t, VKEY)]
-    return spec.digit_forms[0]
+    if spec.digit_forms:
+        return spec.digit_forms[0]
+    for prefix in ("v", "V", "r", ""):
+        widths = [n for n in range(1, 7) if m.accepts_value(t, VKEY, prefix + "1" * n)]
+        if widths:
+            return prefix, widths[0]
+    raise RuntimeError(f"cannot understand the version pattern {spec.expr!r}")
+
+
+def vmax(m, t):
+    """Greatest representable version number."""
+    prefix, w = vform(m, t)
+    widths = [n for n in range(1, 8) if m.accepts_value(t, VKEY, prefix + "9" * n)]
+    return 10 ** max(widths) - 1
 
 
 @st.composite
@@ -52,7 +67,7 @@ def cases(draw):
     t = draw(st.sampled_from(leafs))
     keys = m.keys(t)
     prefix, width = vform(m, t)
-    hi = 10 ** width - 1
+    hi = vmax(m, t)
     base = {k: draw(gens.entity_value(m, t, k, ["x", "y"])) for k in keys}
     vi = keys.index(VKEY)
     ents = []
@@ -64,7 +79,8 @@ def cases(draw):
     elif vset_kind == "zero":
         nums = [0] + sorted(draw(st.sets(st.integers(1, 9), max_size=2)))
     elif vset_kind == "max":
-        nums = sorted(draw(st.sets(st.sampled_from([hi, hi - 1, hi - 2, 1]), min_size=1, max_size=3)))
+        edge = 10 ** width   # first number that needs one more digit than the narrowest form
+        nums = sorted(draw(st.sets(st.sampled_from([hi, hi - 1, hi - 2, 1, min(edge, hi) - 1, min(edge, hi) - 2]), min_size=1, max_size=3)))
     elif vset_kind == "single":
         nums = [draw(st.integers(0, 12))]
     else:
@@ -139,7 +155,7 @@ def evaluate(case) -> Outcome:
 
     def fmt(n):
         s = prefix + str(n).zfill(width)
-        return s if len(str(n)) <= width else None
+        return s if m.accepts_value(t, VKEY, s) else None
 
     def typed(fields):
         ts = m.types_for_fields(fields)
@@ -165,7 +181,7 @@ def evaluate(case) -> Outcome:
 
     nums_existing = sorted({vnum(f[VKEY]) for a, f in ents if VKEY in f and all(f.get(k) == case["publish"]["fields"].get(k) for k in keys[:keys.index(VKEY)])})
     gap = len(nums_existing) >= 2 and nums_existing != list(range(nums_existing[0], nums_existing[-1] + 1))
-    boundary = any(n in (0, 10 ** width - 1, 10 ** width - 2) for n in nums_existing)
+    boundary = any(n in (0, 10 ** width - 1, 10 ** width - 2, vmax(m, t), vmax(m, t) - 1) for n in nums_existing)
     out.nontrivial = gap or boundary
     out.key = [case["entities"], case["probes"], case["publish"]]
     world = world_now([])
